@@ -1,5 +1,5 @@
 (* Pinned statements of C01: re-checked on every run. *)
-From SF Require Import Base.Prelude Gen.Generated Unsized.Types Unsized.Parse Unsized.Machine Unsized.Ops Unsized.Run Unsized.Proofs.EncodeParse Unsized.Proofs.Mem Unsized.Proofs.Notify Unsized.Proofs.Flat Unsized.Proofs.Layout Unsized.Proofs.Observe Unsized.Proofs.Path Unsized.Proofs.Context Unsized.Proofs.FocusOps Unsized.Proofs.NotifyInside Unsized.Proofs.Resize Unsized.Proofs.GenOps Unsized.Proofs.History Unsized.Proofs.Init Unsized.Proofs.History2 Unsized.Proofs.ExecTie Unsized.Proofs.ExecTie2 Unsized.Proofs.Keyed Unsized.Proofs.NotifyInside2 Unsized.Proofs.SetData Unsized.Proofs.History3 Unsized.Proofs.History4 Properties.C01.
+From SF Require Import Base.Prelude Gen.Generated Unsized.Types Unsized.Parse Unsized.Machine Unsized.Ops Unsized.Run Unsized.Proofs.EncodeParse Unsized.Proofs.Mem Unsized.Proofs.Notify Unsized.Proofs.Flat Unsized.Proofs.Layout Unsized.Proofs.Observe Unsized.Proofs.Path Unsized.Proofs.Context Unsized.Proofs.FocusOps Unsized.Proofs.NotifyInside Unsized.Proofs.Resize Unsized.Proofs.GenOps Unsized.Proofs.History Unsized.Proofs.Init Unsized.Proofs.History2 Unsized.Proofs.ExecTie Unsized.Proofs.ExecTie2 Unsized.Proofs.Keyed Unsized.Proofs.NotifyInside2 Unsized.Proofs.SetData Unsized.Proofs.History3 Unsized.Proofs.History4 Unsized.Proofs.Enums Properties.C01.
 
 Check (C01_flat_step_refines :
   forall ts vs s top o vs',
@@ -92,12 +92,12 @@ Check (C01_dispatcher_tie :
     RepF [] t v s top ->
     (exists X xv, resolve t v (focus_of o) = Some (X, xv) /\ (exists c lw, X = TList c lw)) ->
     mstepG ovf t s top o = Ok r ->
-    forall fuel, (length (focus_of o) < fuel)%nat -> exec fuel ovf t s top [] (enc_op o) = Ok r).
+    forall fuel, (length (focus_of o) < fuel)%nat -> exec fuel ovf t s top [] (enc_op t v o) = Ok r).
 Check (C01_dispatcher_tie_all_ops :
   forall ovf t v s top o r,
     RepF [] t v s top -> (exists v', ostepX (m_cap s) t v o = Some v') ->
     mstepX ovf t s top o = Ok r ->
-    forall fuel, (length (xfocus o) < fuel)%nat -> exec fuel ovf t s top [] (enc_xop o) = Ok r).
+    forall fuel, (length (xfocus o) < fuel)%nat -> exec fuel ovf t s top [] (enc_xop t v o) = Ok r).
 Check (C01_set_data_refines :
   forall ovf pi t v X xv xv' s top,
     resolve t v pi = Some (X, xv) -> headed X = true -> wf X xv' = true -> 0 < zlen (encode X xv) ->
@@ -185,6 +185,26 @@ Check (C01_full_run_refines :
     exists s' top' pi', mrunY ovf t s top h = Ok (s', top', obss) /\ RepF pi' t v' s' top' /\ m_cap s' = m_cap s).
 Check (C01_keyed_views_stay_sorted :
   forall cap t v o v' obs, ostepY cap t v o = Some (v', obs) -> sorted_view t v o /\ sorted_view t v' o).
+Check (C01_every_shape :
+ forall t, plain t = true).
+Check (C01_enum_switch_refines :
+  forall ovf pi t v rw vs xv d vt s top,
+    resolve t v pi = Some (TEnum rw vs, xv) -> find_variant d vs = Some vt ->
+    0 <= d < 256 ^ Z.of_nat rw -> zero_ok vt = true ->
+    RepF pi t v s top -> m_refuse s <> 1 ->
+    m_len s + (Z.of_nat rw + init_size vt 0 - zlen (encode (TEnum rw vs) xv)) <= m_cap s ->
+    exists s' top', set_data ovf t s top (mpath pi) (init_variant_size rw vt 0) (init_variant rw d vt 0) = Ok (s', top', []) /\
+                    RepF pi t (plug t v pi (VEnum d (dflt vt))) s' top' /\ m_cap s' = m_cap s /\ m_refuse s' = m_refuse s).
+Check (C01_run_refines_with_switches :
+  forall ovf t h v s top pi0 v' obss,
+    RepF pi0 t v s top -> m_refuse s <> 1 -> orunZ (m_cap s) t v h = Some (v', obss) ->
+    exists s' top' pi', mrunZ ovf t s top h = Ok (s', top', obss) /\ RepF pi' t v' s' top' /\ m_cap s' = m_cap s).
+Check (C01_dispatcher_tie_switch :
+  forall ovf t v s top pi d r,
+    RepF [] t v s top ->
+    (exists X xv, resolve t v pi = Some (X, xv) /\ (exists rw vs, X = TEnum rw vs)) ->
+    mstepZ ovf t s top (ZSwitch pi d) = Ok r ->
+    forall fuel, (length pi < fuel)%nat -> exec fuel ovf t s top [] (enc_path t v pi ++ [60; d]) = Ok r).
 
 Print Assumptions C01_flat_step_refines.
 Print Assumptions C01_flat_run_refines.
@@ -215,3 +235,7 @@ Print Assumptions C01_keyed_unsized_map_overwrite.
 Print Assumptions C01_full_step_refines.
 Print Assumptions C01_full_run_refines.
 Print Assumptions C01_keyed_views_stay_sorted.
+Print Assumptions C01_every_shape.
+Print Assumptions C01_enum_switch_refines.
+Print Assumptions C01_run_refines_with_switches.
+Print Assumptions C01_dispatcher_tie_switch.
